@@ -95,6 +95,14 @@ static void observe(const density_sketch<T, K>& s, const Model<T>& m, Rng& r, co
   if (m.n == 0) {
     VF_CHECK(s.is_empty(), P + "not-empty-without-input", ctx);
     VF_CHECK(throws([&] { s.get_estimate(std::vector<T>(dim, 0)); }), P + "estimate-on-empty-answered", ctx);
+    // an empty receiver must refuse wrong-dimension input as well (update and merge, lvalue and rvalue)
+    density_sketch<T, K>& es = const_cast<density_sketch<T, K>&>(s);
+    VF_CHECK(throws([&] { es.update(std::vector<T>(dim + 1, 1)); }), P + "wrong-dimension-update-accepted|empty-receiver", ctx);
+    density_sketch<T, K> od(k, dim + 1, kern); od.update(std::vector<T>(dim + 1, 2)); od.update(std::vector<T>(dim + 1, 3));
+    VF_CHECK(throws([&] { es.merge(od); }), P + "wrong-dimension-merge-accepted|empty-receiver", ctx);
+    { density_sketch<T, K> od2(od); VF_CHECK(throws([&] { es.merge(std::move(od2)); }), P + "wrong-dimension-merge-accepted|empty-receiver", ctx); }
+    VF_CHECK(s.get_n() == 0 && s.is_empty() && s.begin() == s.end(), P + "state-changed-by-refused-operation|empty-receiver", ctx);
+    count("refusals_empty_receiver");
     return;
   }
   // a sketch that received points must keep answering (non-negative kernel => finite, >= 0)
